@@ -37,7 +37,7 @@ func main() {
 		Pkg:   "./cmd/c01",
 		Rule: "datagrams are generated per (now, window offset) configuration from classes: random bytes of length 0..200; a valid report with single/multi bit flips and field swaps; " +
 			"re-signings under every other key in the system and over wrong signing bytes; slot boundaries now±432/433 and window start-1/start/end-1/end; power 0/1/2; unknown/banned/never-authorized ids; " +
-			"truncated/padded datagrams; acceptable positive controls. Non-trivial = an 80-byte (after truncation) datagram naming a device id known to the server, i.e. one that gets past the length and lookup front; " +
+			"truncated/padded datagrams; acceptable positive controls; one server lifetime at scale (more than 256 devices whose keys were all verified, foreign-key datagrams at cache-like distances, a restart on a report log longer than the recent-report list, a report-log write fault that heals). Non-trivial = an 80-byte (after truncation) datagram naming a device id known to the server, i.e. one that gets past the length and lookup front; " +
 			"distinct by (bytes, now, offset).",
 		Assumptions: []string{
 			"rotation and impact jobs are gated at their loop heads while datagrams are judged (they perform no action then)",
@@ -50,6 +50,10 @@ func main() {
 			c.Require("accepted_positive_controls", 4)
 			c.Require("via_socket", 10)
 			c.Require("queued.judged", 1)
+			c.Require("scale.rounds", 1)
+			c.Require("scale.foreign_key_datagrams", 12)
+			c.Require("scale.rejected_after_restart_on_long_log", 6)
+			c.Require("scale.rejected_after_log_fault", 5)
 			for _, g := range []string{"rej.length", "rej.unknown_device", "rej.banned_device", "rej.signature", "rej.time_window", "rej.storage_window", "rej.sentinel"} {
 				c.Require(g, 1)
 			}
@@ -72,6 +76,13 @@ func plan(tier string, seed int64) []run.Batch {
 	for i := 0; i < nb; i++ {
 		bs = append(bs, run.Batch{Kind: "datagrams", Seed: seed*1000 + int64(i), N: len(deltas), TimeoutS: 170,
 			Params: map[string]string{"slice": fmt.Sprint(i % 8), "of": "8", "rounds": fmt.Sprint(rounds)}})
+	}
+	ns := 1
+	if tier == "thorough" {
+		ns = 4
+	}
+	for i := 0; i < ns; i++ {
+		bs = append(bs, run.Batch{Kind: "scale", Seed: seed*1000 + 500 + int64(i), N: 1, TimeoutS: 170})
 	}
 	return bs
 }
@@ -692,6 +703,10 @@ func (w *world) queuedAcrossClockChange() {
 // ---------------------------------------------------------------- child
 
 func child(b run.Batch, r *ev.Result) {
+	if b.Kind == "scale" {
+		scaleRound(b, r, b.Seed)
+		return
+	}
 	rounds := 1
 	fmt.Sscan(b.P("rounds"), &rounds)
 	for k := 0; k < rounds && r.NumViolations() == 0; k++ {
